@@ -488,6 +488,23 @@ func (e *Engine) step(st *State, fr *Frame, instr ssa.Instruction) bool {
 				return true
 			}
 		}
+		if xs, ok := x.(VSym); ok && xs.T.Sort == SBytes {
+			if is, ok := idx.(VSym); ok && is.T.Sort == SInt {
+				// element of a []byte: in range or a run-time panic; the byte is a function of the slice and the index
+				inRange := And(Ge(is.T, IntLit(0)), Lt(is.T, App(SInt, "b.len", xs.T)))
+				if !inRange.IsTrue() {
+					st2 := st.clone()
+					st2.assume(Not(inRange))
+					e.panicPath(st2, fr.depth, "index out of range at "+e.pos(in.Pos()))
+					st.assume(inRange)
+				}
+				bt := App(SInt, "b.at", xs.T, is.T)
+				st.fact(And(Ge(bt, IntLit(0)), Le(bt, IntLit(255))))
+				cell := e.newCell(st, sym(bt))
+				st.wregs(fr)[in] = VPtr{Cell: cell}
+				return true
+			}
+		}
 		et := in.Type().(*types.Pointer).Elem()
 		cell := e.newCell(st, VLazy{et, fmt.Sprintf("elem.%d", e.nextID())})
 		st.wregs(fr)[in] = VPtr{Cell: cell}
